@@ -6,10 +6,24 @@
 (* Device D3: on the lattice cos th in {1, 0, -1} the angle is 0, PI/2, PI    *)
 (* and the reward is the linear form  c + pisq * PI^2  with rational c, pisq. *)
 (* cos components outside [-1, 1] (a model may predict them) are clipped.     *)
+(*                                                                            *)
+(* Three staged machines share the variables:                                 *)
+(*   Next       one (observation, torque) pair of the lattice,                 *)
+(*   NextBatch  the VECTORISED reward model: a batch of any rank - batch shape  *)
+(*              sh, actions sh x 1, observations sh x 3 - is rewarded pointwise *)
+(*              and the result has exactly the batch shape sh, whichever of    *)
+(*              its axes have length one (BatchReward, OutShape),              *)
+(*   NextPlan   rl_blox.algorithm.pets.evaluate_plans WITH this reward model:   *)
+(*              S candidate plans x P particles x horizon H; per plan the       *)
+(*              particle average of the rewards summed along the imagined      *)
+(*              trajectory, each plan charged its OWN torques (PlanValue).      *)
 EXTENDS Integers, Sequences, FiniteSets, TLC, Json, Exact
 
 CONSTANTS EMIT,
-          Dev       \* "none" | "no_clip" (canary)
+          Dev,      \* "none" | canaries: "no_clip", "squeeze_all" (NextBatch), "torque_axis_collapsed" (NextPlan)
+          Shapes,   \* NextBatch: batch shapes coded as decimal digits (213 = <<2, 1, 3>>, 0 = a single pair), axis lengths 1..9
+          Dims,     \* NextPlan: <<S, P, H>> coded as decimal digits SPH
+          NPat      \* NextBatch / NextPlan: fill patterns 1..NPat
 
 VARIABLES stage, vec
 vars == <<stage, vec>>
@@ -56,4 +70,101 @@ SinIgnored == Done => \A si \in 1..Len(Sin) : Reward(vec.c, Sin[si], vec.v, vec.
 HalfTurns == Done => LET cc == QClip(vec.c, I(-1), One)
                          k == IF cc = One THEN 0 ELSE IF cc = Zero THEN 1 ELSE 2
                      IN R.pisq = QNeg(Q(k * k, 4))
+----------------------------------------------------------------------------
+(* 32-bit safe sums of forms: add over the least common denominator *)
+SAdd(a, b) == LET g == GCD(a[2], b[2])
+              IN Norm(a[1] * (b[2] \div g) + b[1] * (a[2] \div g), (a[2] \div g) * b[2])
+FAdd(f, g) == Form(SAdd(f.c, g.c), SAdd(f.pisq, g.pisq))
+FZero == Form(Zero, Zero)
+RECURSIVE FSumTo(_, _)
+FSumTo(s, k) == IF k = 0 THEN FZero ELSE FAdd(FSumTo(s, k - 1), s[k])
+FSum(s)  == FSumTo(s, Len(s))
+FMean(s) == LET t == FSum(s) IN Form(QDiv(t.c, I(Len(s))), QDiv(t.pisq, I(Len(s))))
+
+(* the lattice point number h (all four components move with h, at different speeds) *)
+ObsAt(h) == [c |-> Cos[(h % Len(Cos)) + 1], s |-> Sin[((h \div 2) % Len(Sin)) + 1], v |-> Vel[((h \div 3 + h) % Len(Vel)) + 1]]
+TrqAt(h) == Trq[(h % Len(Trq)) + 1]
+(* upright at rest: the reward is the torque cost alone *)
+Rest == [c |-> One, s |-> Zero, v |-> Zero]
+RewardAt(o, u) == Reward(o.c, o.s, o.v, u)
+
+(* ------------------------------------------------------------- NextBatch --- *)
+RECURSIVE DigitsOf(_)
+DigitsOf(c) == IF c = 0 THEN << >> ELSE Append(DigitsOf(c \div 10), c % 10)
+RECURSIVE Prod(_, _)
+Prod(sh, k) == IF k = 0 THEN 1 ELSE Prod(sh, k - 1) * sh[k]
+Size(sh) == Prod(sh, Len(sh))
+(* entries in row-major order; pattern q: odd q - every entry its own lattice point; even q - all at rest, torques differ *)
+BatchObs(sh, q) == [j \in 1..Size(sh) |-> IF q % 2 = 0 THEN Rest ELSE ObsAt(j * 7 + q * 3)]
+BatchAct(sh, q) == [j \in 1..Size(sh) |-> TrqAt(j + q)]
+(* pendulum_reward(act, obs): pointwise *)
+BatchReward(obs, act) == [j \in 1..Len(obs) |-> RewardAt(obs[j], act[j])]
+(* shape of the result: the batch shape.  deviation "squeeze_all": every axis of length one is dropped *)
+NotOne(d) == d # 1
+OutShape(sh) == IF Dev = "squeeze_all" THEN SelectSeq(sh, NotOne) ELSE sh
+
+ChooseShape == /\ stage = 0 /\ \E c \in Shapes : vec' = [shape |-> DigitsOf(c)]
+               /\ stage' = 10
+FillBatch == /\ stage = 10
+             /\ \E q \in 1..NPat :
+                  LET sh == vec.shape
+                      ob == BatchObs(sh, q)
+                      ac == BatchAct(sh, q)
+                  IN /\ vec' = [shape |-> sh, q |-> q, obs |-> ob, act |-> ac]
+                     /\ EMIT => PrintT(<<"EMIT", ToJson([batch |-> vec', out_shape |-> OutShape(sh), exp |-> BatchReward(ob, ac)])>>)
+             /\ stage' = 11
+NextBatch == ChooseShape \/ FillBatch
+
+DoneBatch == stage = 11
+(* one reward per (action, observation) pair, arranged as the batch: axes of length one are axes like any other *)
+BatchShapeKept == DoneBatch => OutShape(vec.shape) = vec.shape /\ Len(BatchReward(vec.obs, vec.act)) = Size(vec.shape)
+(* the reward of a pair does not depend on the other pairs of the batch *)
+BatchPointwise ==
+  DoneBatch => \A j \in 1..Len(vec.obs), j2 \in 1..Len(vec.obs) : j # j2 =>
+     BatchReward(vec.obs, [vec.act EXCEPT ![j2] = Zero])[j] = BatchReward(vec.obs, vec.act)[j]
+
+(* -------------------------------------------------------------- NextPlan --- *)
+(* plan s applies torque acts[s][t] at step t in every particle; traj[s][p][t], t = 1..H+1, are the imagined observations *)
+PlanActs(S, H, q) == [s \in 1..S |-> [t \in 1..H |-> TrqAt(s * 2 + t + q)]]
+PlanTraj(S, P, H, q) == [s \in 1..S |-> [p \in 1..P |-> [t \in 1..(H + 1) |->
+                           IF q % 3 = 0 THEN Rest ELSE ObsAt(s * 3 + p * 5 + t * 7 + q)]]]
+TorqueCost(as) == FSum([t \in 1..Len(as) |-> RewardAt(Rest, as[t])])
+(* deviation "torque_axis_collapsed": with ONE particle the particle axis of the broadcast actions is lost and the torque *)
+(* term of every plan is charged with the average torque cost of all candidate plans                                       *)
+ParticleReturn(A, T, s, p) ==
+  LET H == Len(A[s]) IN
+  IF Dev = "torque_axis_collapsed" /\ Len(T[s]) = 1
+  THEN FAdd(FSum([t \in 1..H |-> RewardAt(T[s][p][t], Zero)]), FMean([s2 \in 1..Len(A) |-> TorqueCost(A[s2])]))
+  ELSE FSum([t \in 1..H |-> RewardAt(T[s][p][t], A[s][t])])
+PlanValue(A, T) == [s \in 1..Len(A) |-> FMean([p \in 1..Len(T[s]) |-> ParticleReturn(A, T, s, p)])]
+CostsDiffer(A) == \E s1 \in 1..Len(A), s2 \in 1..Len(A) : TorqueCost(A[s1]) # TorqueCost(A[s2])
+
+ChoosePlanDims == /\ stage = 0 /\ \E c \in Dims : vec' = [dims |-> << c \div 100, (c \div 10) % 10, c % 10 >>]
+                  /\ stage' = 20
+FillPlan == /\ stage = 20
+            /\ \E q \in 1..NPat :
+                 LET S == vec.dims[1]  P == vec.dims[2]  H == vec.dims[3]
+                     A == PlanActs(S, H, q)
+                     T == PlanTraj(S, P, H, q)
+                 IN /\ vec' = [dims |-> vec.dims, q |-> q, acts |-> A, traj |-> T]
+                    /\ EMIT => PrintT(<<"EMIT", ToJson([plan |-> vec', costs_differ |-> CostsDiffer(A), exp |-> PlanValue(A, T)])>>)
+            /\ stage' = 21
+NextPlan == ChoosePlanDims \/ FillPlan
+
+DonePlan == stage = 21
+(* a plan's value depends on its own torques only *)
+PlanLocalPend ==
+  DonePlan => \A s \in 1..Len(vec.acts), s2 \in 1..Len(vec.acts) : s # s2 =>
+     PlanValue([vec.acts EXCEPT ![s2][1] = Zero], vec.traj)[s] = PlanValue(vec.acts, vec.traj)[s]
+(* with a single particle the value is the plain sum of the rewards of the plan's own torques along its trajectory *)
+SingleParticleIsPlainSum ==
+  DonePlan /\ vec.dims[2] = 1 => \A s \in 1..Len(vec.acts) :
+     PlanValue(vec.acts, vec.traj)[s] = FSum([t \in 1..vec.dims[3] |-> RewardAt(vec.traj[s][1][t], vec.acts[s][t])])
+(* the observation reached after the last torque is not rewarded *)
+LastObsIgnoredPend ==
+  DonePlan => \A s \in 1..Len(vec.acts), p \in 1..vec.dims[2] :
+     PlanValue(vec.acts, [vec.traj EXCEPT ![s][p][vec.dims[3] + 1] = ObsAt(1)]) = PlanValue(vec.acts, vec.traj)
+(* at rest the value of a plan is its torque cost, whatever the number of particles *)
+RestIsTorqueCost ==
+  DonePlan /\ vec.q % 3 = 0 => \A s \in 1..Len(vec.acts) : PlanValue(vec.acts, vec.traj)[s] = TorqueCost(vec.acts[s])
 =============================================================================
